@@ -51,8 +51,14 @@ def numeric_menu(spec, field, level):
     vals = []
     if edges:
         if level == "core":
-            pick = edges if len(edges) <= 3 else [edges[0], edges[len(edges) // 2], edges[-1]]
-            vals += pick + [edges[0] - 1.0, INF, NAN]  # NaN last: truncation keeps the ends of a menu
+            # ordered by priority (capped alphabets are truncated from the end): lowest edge, NaN, a point below every
+            # edge, highest edge, +inf, a middle edge
+            vals += [edges[0], NAN, edges[0] - 1.0]
+            if len(edges) > 1:
+                vals.append(edges[-1])
+            vals.append(INF)
+            if len(edges) > 2:
+                vals.append(edges[len(edges) // 2])
         else:
             vals += edges
             vals += [(a + b) / 2.0 for a, b in zip(edges[:-1], edges[1:])]
@@ -64,7 +70,7 @@ def numeric_menu(spec, field, level):
                     vals += [1e30, -1e30]
     if has_leaf:
         if level == "core":
-            vals += [0.5, -2.0, NAN]
+            vals += [0.5, NAN, -2.0]
         elif edges:
             vals += [0.5, -2.0, NAN, INF]
         else:
@@ -77,7 +83,7 @@ def field_menu(spec, field, level):
         return numeric_menu(spec, field, level)
     if field == "c":
         if level == "core":
-            return ["a", "b", None]
+            return ["a", None, "b"]
         return ["a", "b", "", None, NAN, True, "NaN"]
     if field == "s":
         if level == "core":
@@ -134,10 +140,7 @@ def records(spec, level="core", cap=None):
                 if not cands:
                     return
                 f = max(cands, key=lambda f: len(menus[f]))
-                # drop from the middle: the ends of a menu hold its extreme classes (lowest edge ... +inf, NaN)
-                m = list(menus[f])
-                del m[len(m) // 2]
-                menus[f] = m
+                menus[f] = menus[f][:-1]  # menus are ordered by priority: drop the least important value
 
         shrink({"x": 3})
         shrink({})
